@@ -83,6 +83,8 @@ class RustMagicNumberAnalyzer(RustBaseAnalyzer):
         try:
             if node.type == "float_literal":
                 return float(cleaned)
+            if cleaned.isdigit():
+                return int(cleaned)  # decimal, leading zeros allowed (0042 is 42 in Rust)
             return int(cleaned, 0)  # Handles hex, octal, binary
         except (ValueError, TypeError):
             return None
